@@ -37,6 +37,31 @@ ASSUMPTIONS = ["family a: the limit function is constant per run", "tasks do not
 
 # ------------------------------------------------------------------ family a
 
+class TaskExit(BaseException):
+    """A task may raise anything, including exceptions that are not Exception subclasses
+    (sys.exit() in a task raises SystemExit; a custom class is used so that a leak cannot end the harness)."""
+
+
+def _raise_kind(sim):
+    # first item = simplest; a quarter of the raising tasks raise a bare BaseException subclass
+    return sim.draw_weighted([("RuntimeError", 3), ("BaseException", 1)], "raise_kind")
+
+
+def _do_raise(kind, i):
+    if kind == "BaseException":
+        raise TaskExit("task %d" % i)
+    raise RuntimeError("task %d" % i)
+
+
+def _run_item(sim, item):
+    """Execute one queued worker item; nothing a task raises may escape from the worker's loop."""
+    try:
+        with sim.guard("task-exception-escaped", "team"):
+            item()
+    except TaskExit:
+        sim.fail("task-exception-escaped", "team:BaseException", "a task's BaseException escaped from the item the Team queued on the worker")
+
+
 class MemWorker:
     """In-memory IWorker: queued items are executed one at a time by the scheduler."""
 
@@ -119,15 +144,18 @@ def family_a(sim):
             if op == "do":
                 tid += 1
                 raises = sim.draw_bool(0.25, "raises")
+                kind = _raise_kind(sim) if raises else None
+                if kind == "BaseException":
+                    sim.probe("task_raised_bare_BaseException")
 
-                def task(i=tid, raises=raises):
+                def task(i=tid, raises=raises, kind=kind):
                     ran[i] = ran.get(i, 0) + 1
                     wk = w.current
                     sim.check("one-task-at-a-time-per-worker", not wk.in_task, "team", "worker %d started a task while running another" % wk.idx)
                     wk.in_task = True
                     try:
                         if raises:
-                            raise RuntimeError("task %d" % i)
+                            _do_raise(kind, i)
                     finally:
                         wk.in_task = False
 
@@ -148,8 +176,7 @@ def family_a(sim):
                 item = wk.queue.pop(0)
                 w.current = wk
                 sim.event("exec", wk.idx)
-                with sim.guard("task-exception-escaped", "team"):
-                    item()
+                _run_item(sim, item)
                 w.current = None
             elif op in ("grow", "shrink"):
                 n = sim.draw_int(1, 3, "n")
@@ -184,8 +211,7 @@ def family_a(sim):
             wk = sim.draw_choice(runnable, "worker")
             item = wk.queue.pop(0)
             w.current = wk
-            with sim.guard("task-exception-escaped", "team"):
-                item()
+            _run_item(sim, item)
             w.current = None
         for i, cnt in ran.items():
             sim.check("task-at-most-once", cnt <= 1, "team", "task %d ran %d times" % (i, cnt))
@@ -285,6 +311,10 @@ def family_b(sim):
         ids = [0]
 
         def make_task(i, raises, steps):
+            kind = _raise_kind(sim) if raises else None
+            if kind == "BaseException":
+                sim.probe("task_raised_bare_BaseException")
+
             def task():
                 ran[i] = ran.get(i, 0) + 1
                 in_progress[0] += 1
@@ -292,7 +322,7 @@ def family_b(sim):
                     sched.point("task-step")
                 in_progress[0] -= 1
                 if raises:
-                    raise RuntimeError("task %d" % i)
+                    _do_raise(kind, i)
                 return i * 10
             return task
 
